@@ -340,7 +340,7 @@ def search_radius(ctx):
 
 
 def search_fls(ctx):
-    ctx.given_shared(fls_case(), ctx.total(36, 800))
+    ctx.given_shared(fls_case(), ctx.total(36, 400))
 
 
 def search_mift(ctx):
